@@ -24,7 +24,7 @@ ASSUMPTIONS = [
     "library calls in the frozen no-raise table of sa/effects.py do not raise (logging, loop.time/create_task, set/deque ops, StreamWriter.write/close/is_closing)",
     "asyncio.open_connection / drain / wait_closed raise only OSError family; CancelledError is outside the lattice",
 ]
-FLOORS = {"C07.R1": 5, "C07.R2": 7, "C07.R3": 3, "C07.R4": 5, "C07.R5": 2, "C07.R6": 3, "C07.R7": 3, "C07.R8": 3, "C07.R9": 4}
+FLOORS = {"C07.R1": 5, "C07.R2": 7, "C07.R3": 3, "C07.R4": 5, "C07.R5": 2, "C07.R6": 3, "C07.R7": 3, "C07.R8": 3, "C07.R9": 4, "C07.R10": 1}
 
 
 def run(ctx):
@@ -37,6 +37,11 @@ def run(ctx):
     r7(ctx)
     r8(ctx)
     r9(ctx)
+    from . import c01
+    from .common import reuse
+
+    reuse(ctx, "C07.R10", [c01.r1], "a message is taken out of the queue before the attempt to write it, so one that cannot be encoded is gone when its error is handled and cannot block every later command (C01.R1)",
+          keep=lambda o: "_drain_message_queue" in o.construct or o.verdict != "HOLDS")
 
 
 def _reset_nodes(fn: Fn):
@@ -87,6 +92,15 @@ def r1(ctx):
         ok = bool(reset_ids) and g.all_paths_pass(h.id, [g.exit.id], via, NONEXC)
         exp = "every normal path through the handler awaits reset_connection()" + (" unless the writer is gone or closing (local close)" if is_incomplete else "")
         ctx.check(ok, R, f"_read:handler({h.label})", m, h.ast, exp, "a path leaves the handler without resetting the connection")
+    # leaving the loop normally: only because the reader is gone (a disconnect happened, which notified and scheduled what it
+    # must); any other loop condition ends the receive task on a connection that still counts as connected
+    heads = [n for n in g.nodes if n.kind == "join" and n.label == "while" and any(g.exists_path(n.id, r.id) and g.exists_path(r.id, n.id) for r in reads)]
+    for hd in heads:
+        via = set(reset_ids)
+        for t, present in rd.presence("self._reader"):
+            via.add(rd.branch(t, "false" if present == "true" else "true").id)
+        ok = g.all_paths_pass(hd.id, [g.exit.id], via, NONEXC)
+        ctx.check(ok, R, "_read:loop-ends-only-without-reader", m, hd.ast, "the read loop is left normally only when self._reader is gone or after a reset", "the loop condition can end the receive task while the connection still counts as connected (no reset, no reconnect)")
     # falsy result -> reset
     for rn in reads:
         a = rn.ast
